@@ -30,6 +30,17 @@ def uabs (x : Int) : Int := if x < 0 then -x else x
 def signum (x : Int) : Int := if x < 0 then -1 else if x = 0 then 0 else 1
 def checkedU32 (x : Int) : Option Int := if 0 ≤ x ∧ x ≤ 4294967295 then some x else none
 def checkedU64 (x : Int) : Option Int := if 0 ≤ x ∧ x ≤ 18446744073709551615 then some x else none
+def fitsI8 (x : Int) : Prop := -128 ≤ x ∧ x ≤ 127
+def fitsI16 (x : Int) : Prop := -32768 ≤ x ∧ x ≤ 32767
+def fitsU8 (x : Int) : Prop := 0 ≤ x ∧ x ≤ 255
+def fitsU16 (x : Int) : Prop := 0 ≤ x ∧ x ≤ 65535
+/-- `u64` and (on the 64-bit targets the crate is built for) `usize`. -/
+def fitsU64 (x : Int) : Prop := 0 ≤ x ∧ x ≤ 18446744073709551615
+instance (x : Int) : Decidable (fitsI8 x) := by unfold fitsI8; exact inferInstance
+instance (x : Int) : Decidable (fitsI16 x) := by unfold fitsI16; exact inferInstance
+instance (x : Int) : Decidable (fitsU8 x) := by unfold fitsU8; exact inferInstance
+instance (x : Int) : Decidable (fitsU16 x) := by unfold fitsU16; exact inferInstance
+instance (x : Int) : Decidable (fitsU64 x) := by unfold fitsU64; exact inferInstance
 /-- `Ord::cmp` on integers, as the discriminant of `std::cmp::Ordering` (Less = -1, Equal = 0, Greater = 1). -/
 def cmpInt (a b : Int) : Int := if a < b then -1 else if a = b then 0 else 1
 
@@ -48,6 +59,26 @@ def date2julian (year : Int) (month : Int) (day : Int) : Int :=
   -- common.rs:49: julian += 7834 * m as i32 / 256 + day as i32;
   let julian : Int := julian + (rdiv (7834 * asI32 m) 256 + asI32 day)
   julian
+
+/-- No arithmetic node of `common.rs::date2julian` leaves its Rust integer type, no division by zero, no index out of range
+    (path-sensitive; calls contribute the callee's predicate). -/
+def date2julian_safe (year : Int) (month : Int) (day : Int) : Prop :=
+  (month > 2 → fitsI32 (year + 4800) ∧ fitsU32 (month + 1)) ∧
+  (¬ month > 2 → fitsI32 (year + 4799) ∧ fitsU32 (month + 13)) ∧
+  let y_m : Int × Int := if month > 2 then (year + 4800, month + 1) else (year + 4799, month + 13)
+  let y : Int := y_m.1
+  let m : Int := y_m.2
+  let century : Int := rdiv y 100
+  fitsI32 (y * 365) ∧
+  fitsI32 (y * 365 - 32167) ∧
+  let julian : Int := y * 365 - 32167
+  fitsI32 (rdiv y 4 - century) ∧
+  fitsI32 (rdiv y 4 - century + rdiv century 4) ∧
+  fitsI32 (julian + (rdiv y 4 - century + rdiv century 4)) ∧
+  let julian : Int := julian + (rdiv y 4 - century + rdiv century 4)
+  fitsI32 (7834 * asI32 m) ∧
+  fitsI32 (rdiv (7834 * asI32 m) 256 + asI32 day) ∧
+  fitsI32 (julian + (rdiv (7834 * asI32 m) 256 + asI32 day))
 
 /-- `common.rs::julian2date` (common.rs:56), body sha1 d5169557e5c5 -/
 def julian2date (julian_day : Int) : Int × Int × Int :=
@@ -79,9 +110,51 @@ def julian2date (julian_day : Int) : Int × Int × Int :=
   let month : Int := (quad + 10) % MONTHS_PER_YEAR + 1
   (year, month, day)
 
+/-- No arithmetic node of `common.rs::julian2date` leaves its Rust integer type, no division by zero, no index out of range
+    (path-sensitive; calls contribute the callee's predicate). -/
+def julian2date_safe (julian_day : Int) : Prop :=
+  fitsU32 (asU32 julian_day + 32044) ∧
+  let julian : Int := asU32 julian_day + 32044
+  let quad : Int := julian / 146097
+  fitsU32 (quad * 146097) ∧
+  fitsU32 (julian - quad * 146097) ∧
+  fitsU32 ((julian - quad * 146097) * 4) ∧
+  fitsU32 ((julian - quad * 146097) * 4 + 3) ∧
+  let extra : Int := (julian - quad * 146097) * 4 + 3
+  fitsU32 (quad * 3) ∧
+  fitsU32 (60 + quad * 3) ∧
+  fitsU32 (60 + quad * 3 + extra / 146097) ∧
+  fitsU32 (julian + (60 + quad * 3 + extra / 146097)) ∧
+  let julian : Int := julian + (60 + quad * 3 + extra / 146097)
+  let quad : Int := julian / 1461
+  fitsU32 (quad * 1461) ∧
+  fitsU32 (julian - quad * 1461) ∧
+  let julian : Int := julian - quad * 1461
+  fitsU32 (julian * 4) ∧
+  let y : Int := asI32 (julian * 4 / 1461)
+  (y ≠ 0 → fitsU32 (julian + 305) ∧ fitsU32 ((julian + 305) % 365 + 123)) ∧
+  (¬ y ≠ 0 → fitsU32 (julian + 306) ∧ fitsU32 ((julian + 306) % 366 + 123)) ∧
+  let julian : Int := if y ≠ 0 then (julian + 305) % 365 + 123 else (julian + 306) % 366 + 123
+  fitsU32 (quad * 4) ∧
+  fitsI32 (y + asI32 (quad * 4)) ∧
+  let y : Int := y + asI32 (quad * 4)
+  fitsI32 (y - 4800) ∧
+  let year : Int := y - 4800
+  fitsU32 (julian * 2141) ∧
+  let quad : Int := julian * 2141 / 65536
+  fitsU32 (7834 * quad) ∧
+  fitsU32 (julian - 7834 * quad / 256) ∧
+  let day : Int := julian - 7834 * quad / 256
+  fitsU32 (quad + 10) ∧ fitsU32 ((quad + 10) % MONTHS_PER_YEAR + 1)
+
 /-- `common.rs::is_leap_year` (common.rs:96), body sha1 413b1f1bdff9 -/
 def is_leap_year (year : Int) : Bool :=
   decide (rrem year 4 = 0 ∧ (rrem year 100 ≠ 0 ∨ rrem year 400 = 0))
+
+/-- No arithmetic node of `common.rs::is_leap_year` leaves its Rust integer type, no division by zero, no index out of range
+    (path-sensitive; calls contribute the callee's predicate). -/
+def is_leap_year_safe (year : Int) : Prop :=
+  True
 
 /-- `common.rs::DATE_MAX_JULIAN` (common.rs:20), body sha1 3ee690762649 -/
 def DATE_MAX_JULIAN : Int :=
@@ -99,6 +172,12 @@ def UNIX_EPOCH_JULIAN : Int :=
 def is_valid_date (date : Int) : Bool :=
   decide (date ≥ Tr.DATE_MIN_JULIAN - Tr.UNIX_EPOCH_JULIAN ∧ date ≤ Tr.DATE_MAX_JULIAN - Tr.UNIX_EPOCH_JULIAN)
 
+/-- No arithmetic node of `common.rs::is_valid_date` leaves its Rust integer type, no division by zero, no index out of range
+    (path-sensitive; calls contribute the callee's predicate). -/
+def is_valid_date_safe (date : Int) : Prop :=
+  fitsI32 (Tr.DATE_MIN_JULIAN - Tr.UNIX_EPOCH_JULIAN) ∧
+  (date ≥ Tr.DATE_MIN_JULIAN - Tr.UNIX_EPOCH_JULIAN → fitsI32 (Tr.DATE_MAX_JULIAN - Tr.UNIX_EPOCH_JULIAN))
+
 /-- `common.rs::TIMESTAMP_MAX` (common.rs:23), body sha1 f57282fab179 -/
 def TIMESTAMP_MAX : Int :=
   (Tr.date2julian 10000 1 1 - Tr.UNIX_EPOCH_JULIAN) * USECONDS_PER_DAY - 1
@@ -111,9 +190,19 @@ def TIMESTAMP_MIN : Int :=
 def is_valid_timestamp (timestamp : Int) : Bool :=
   decide (timestamp ≥ Tr.TIMESTAMP_MIN ∧ timestamp ≤ Tr.TIMESTAMP_MAX)
 
+/-- No arithmetic node of `common.rs::is_valid_timestamp` leaves its Rust integer type, no division by zero, no index out of range
+    (path-sensitive; calls contribute the callee's predicate). -/
+def is_valid_timestamp_safe (timestamp : Int) : Prop :=
+  True
+
 /-- `common.rs::is_valid_time` (common.rs:91), body sha1 987484afbf6f -/
 def is_valid_time (time : Int) : Bool :=
   decide (time ≥ 0 ∧ time < USECONDS_PER_DAY)
+
+/-- No arithmetic node of `common.rs::is_valid_time` leaves its Rust integer type, no division by zero, no index out of range
+    (path-sensitive; calls contribute the callee's predicate). -/
+def is_valid_time_safe (time : Int) : Prop :=
+  True
 
 /-- `common.rs::days_of_month` (common.rs:101), body sha1 f5fee08a3795 -/
 def days_of_month (year : Int) (month : Int) : Int :=
@@ -122,15 +211,42 @@ def days_of_month (year : Int) (month : Int) : Int :=
     [[0, 31, 28, 31, 30, 31, 30, 31, 31, 30, 31, 30, 31], [0, 31, 29, 31, 30, 31, 30, 31, 31, 30, 31, 30, 31]]
   idxD (idxD DAY_TABLE (boolToInt (Tr.is_leap_year year)) []) month 0
 
+/-- No arithmetic node of `common.rs::days_of_month` leaves its Rust integer type, no division by zero, no index out of range
+    (path-sensitive; calls contribute the callee's predicate). -/
+def days_of_month_safe (year : Int) (month : Int) : Prop :=
+  let DAY_TABLE : List (List Int) :=
+    [[0, 31, 28, 31, 30, 31, 30, 31, 31, 30, 31, 30, 31], [0, 31, 29, 31, 30, 31, 30, 31, 31, 30, 31, 30, 31]]
+  Tr.is_leap_year_safe year ∧
+  0 ≤ boolToInt (Tr.is_leap_year year) ∧
+  boolToInt (Tr.is_leap_year year) < 2 ∧
+  0 ≤ month ∧
+  month < 13
+
 /-- `common.rs::the_day_of_year` (common.rs:111), body sha1 f1d32c956be0 -/
 def the_day_of_year (year : Int) (month : Int) (day : Int) : Int :=
   idxD (idxD SUM_OF_DAYS_TABLE (boolToInt (Tr.is_leap_year year)) []) (month - 1) 0 + day
+
+/-- No arithmetic node of `common.rs::the_day_of_year` leaves its Rust integer type, no division by zero, no index out of range
+    (path-sensitive; calls contribute the callee's predicate). -/
+def the_day_of_year_safe (year : Int) (month : Int) (day : Int) : Prop :=
+  Tr.is_leap_year_safe year ∧
+  0 ≤ boolToInt (Tr.is_leap_year year) ∧
+  boolToInt (Tr.is_leap_year year) < 2 ∧
+  fitsU64 (month - 1) ∧
+  0 ≤ month - 1 ∧
+  month - 1 < 12 ∧
+  fitsU32 (idxD (idxD SUM_OF_DAYS_TABLE (boolToInt (Tr.is_leap_year year)) []) (month - 1) 0 + day)
 
 /-- `timestamp.rs::Timestamp::new` (timestamp.rs:28), body sha1 0c7c487ad319 -/
 def Timestamp.new (date : Int) (time : Int) : Int :=
   -- timestamp.rs:29: let usecs = date.days() as i64 * USECONDS_PER_DAY + time.usecs();
   let usecs : Int := date * USECONDS_PER_DAY + time
   usecs
+
+/-- No arithmetic node of `timestamp.rs::Timestamp::new` leaves its Rust integer type, no division by zero, no index out of range
+    (path-sensitive; calls contribute the callee's predicate). -/
+def Timestamp.new_safe (date : Int) (time : Int) : Prop :=
+  fitsI64 (date * USECONDS_PER_DAY) ∧ fitsI64 (date * USECONDS_PER_DAY + time)
 
 /-- `timestamp.rs::Timestamp::extract` (timestamp.rs:35), body sha1 c842109270fa -/
 def Timestamp.extract (self : Int) : Int × Int :=
@@ -149,6 +265,13 @@ def Timestamp.extract (self : Int) : Int × Int :=
   let time : Int := date_time.2
   (asI32 date, time)
 
+/-- No arithmetic node of `timestamp.rs::Timestamp::extract` leaves its Rust integer type, no division by zero, no index out of range
+    (path-sensitive; calls contribute the callee's predicate). -/
+def Timestamp.extract_safe (self : Int) : Prop :=
+  (self < 0 →
+    let temp_time : Int := rrem self USECONDS_PER_DAY
+    temp_time < 0 → fitsI64 (rdiv self USECONDS_PER_DAY - 1) ∧ fitsI64 (temp_time + USECONDS_PER_DAY))
+
 /-- `timestamp.rs::Timestamp::date` (timestamp.rs:56), body sha1 249cddec1f9a -/
 def Timestamp.date (self : Int) : Int :=
   -- timestamp.rs:57: let date = if self.0.is_negative() && self.0 % USECONDS_PER_DAY != 0 {
@@ -159,15 +282,31 @@ def Timestamp.date (self : Int) : Int :=
       rdiv self USECONDS_PER_DAY
   asI32 date
 
+/-- No arithmetic node of `timestamp.rs::Timestamp::date` leaves its Rust integer type, no division by zero, no index out of range
+    (path-sensitive; calls contribute the callee's predicate). -/
+def Timestamp.date_safe (self : Int) : Prop :=
+  self < 0 ∧ rrem self USECONDS_PER_DAY ≠ 0 → fitsI64 (rdiv self USECONDS_PER_DAY - 1)
+
 /-- `timestamp.rs::Timestamp::time` (timestamp.rs:66), body sha1 89f0811f3a24 -/
 def Timestamp.time (self : Int) : Int :=
   -- timestamp.rs:67: let temp_time = self.0 % USECONDS_PER_DAY;
   let temp_time : Int := rrem self USECONDS_PER_DAY
   if temp_time < 0 then temp_time + USECONDS_PER_DAY else temp_time
 
+/-- No arithmetic node of `timestamp.rs::Timestamp::time` leaves its Rust integer type, no division by zero, no index out of range
+    (path-sensitive; calls contribute the callee's predicate). -/
+def Timestamp.time_safe (self : Int) : Prop :=
+  let temp_time : Int := rrem self USECONDS_PER_DAY
+  temp_time < 0 → fitsI64 (temp_time + USECONDS_PER_DAY)
+
 /-- `timestamp.rs::Timestamp::try_from_usecs` (timestamp.rs:107), body sha1 ae764f2ba50c -/
 def Timestamp.try_from_usecs (usecs : Int) : Chk Int :=
   if Tr.is_valid_timestamp usecs = true then Except.ok usecs else Except.error Err.DateOutOfRange
+
+/-- No arithmetic node of `timestamp.rs::Timestamp::try_from_usecs` leaves its Rust integer type, no division by zero, no index out of range
+    (path-sensitive; calls contribute the callee's predicate). -/
+def Timestamp.try_from_usecs_safe (usecs : Int) : Prop :=
+  Tr.is_valid_timestamp_safe usecs
 
 /-- `timestamp.rs::Timestamp::add_interval_dt` (timestamp.rs:117), body sha1 685bb2db92c0 -/
 def Timestamp.add_interval_dt (self : Int) (interval : Int) : Chk Int :=
@@ -177,21 +316,49 @@ def Timestamp.add_interval_dt (self : Int) (interval : Int) : Chk Int :=
   | some ts => Tr.Timestamp.try_from_usecs ts
   | none => Except.error Err.DateOutOfRange
 
+/-- No arithmetic node of `timestamp.rs::Timestamp::add_interval_dt` leaves its Rust integer type, no division by zero, no index out of range
+    (path-sensitive; calls contribute the callee's predicate). -/
+def Timestamp.add_interval_dt_safe (self : Int) (interval : Int) : Prop :=
+  let result : Option Int := checkedI64 (self + interval)
+  match result with
+  | some ts => Tr.Timestamp.try_from_usecs_safe ts
+  | none => True
+
 /-- `interval.rs::IntervalDT::negate` (interval.rs:447), body sha1 7069a994e602 -/
 def IntervalDT.negate (self : Int) : Int :=
   -self
+
+/-- No arithmetic node of `interval.rs::IntervalDT::negate` leaves its Rust integer type, no division by zero, no index out of range
+    (path-sensitive; calls contribute the callee's predicate). -/
+def IntervalDT.negate_safe (self : Int) : Prop :=
+  fitsI64 (-self)
 
 /-- `timestamp.rs::Timestamp::sub_interval_dt` (timestamp.rs:181), body sha1 31860c72f51f -/
 def Timestamp.sub_interval_dt (self : Int) (interval : Int) : Chk Int :=
   Tr.Timestamp.add_interval_dt self (Tr.IntervalDT.negate interval)
 
+/-- No arithmetic node of `timestamp.rs::Timestamp::sub_interval_dt` leaves its Rust integer type, no division by zero, no index out of range
+    (path-sensitive; calls contribute the callee's predicate). -/
+def Timestamp.sub_interval_dt_safe (self : Int) (interval : Int) : Prop :=
+  Tr.IntervalDT.negate_safe interval ∧ Tr.Timestamp.add_interval_dt_safe self (Tr.IntervalDT.negate interval)
+
 /-- `timestamp.rs::Timestamp::add_time` (timestamp.rs:138), body sha1 1d2cb056a758 -/
 def Timestamp.add_time (self : Int) (time : Int) : Chk Int :=
   Tr.Timestamp.try_from_usecs (self + time)
 
+/-- No arithmetic node of `timestamp.rs::Timestamp::add_time` leaves its Rust integer type, no division by zero, no index out of range
+    (path-sensitive; calls contribute the callee's predicate). -/
+def Timestamp.add_time_safe (self : Int) (time : Int) : Prop :=
+  fitsI64 (self + time) ∧ Tr.Timestamp.try_from_usecs_safe (self + time)
+
 /-- `timestamp.rs::Timestamp::sub_time` (timestamp.rs:168), body sha1 48deb3e4ce0f -/
 def Timestamp.sub_time (self : Int) (time : Int) : Chk Int :=
   Tr.Timestamp.try_from_usecs (self - time)
+
+/-- No arithmetic node of `timestamp.rs::Timestamp::sub_time` leaves its Rust integer type, no division by zero, no index out of range
+    (path-sensitive; calls contribute the callee's predicate). -/
+def Timestamp.sub_time_safe (self : Int) (time : Int) : Prop :=
+  fitsI64 (self - time) ∧ Tr.Timestamp.try_from_usecs_safe (self - time)
 
 /-- `timestamp.rs::Timestamp::sub_timestamp` (timestamp.rs:174), body sha1 83c104be17c5 -/
 def Timestamp.sub_timestamp (self : Int) (timestamp : Int) : Int :=
@@ -199,15 +366,35 @@ def Timestamp.sub_timestamp (self : Int) (timestamp : Int) : Int :=
   let microseconds : Int := self - timestamp
   microseconds
 
+/-- No arithmetic node of `timestamp.rs::Timestamp::sub_timestamp` leaves its Rust integer type, no division by zero, no index out of range
+    (path-sensitive; calls contribute the callee's predicate). -/
+def Timestamp.sub_timestamp_safe (self : Int) (timestamp : Int) : Prop :=
+  fitsI64 (self - timestamp)
+
 /-- `time.rs::Time::from_hms_unchecked` (time.rs:32), body sha1 d863b5d59e6b -/
 def Time.from_hms_unchecked (hour : Int) (minute : Int) (sec : Int) (usec : Int) : Int :=
   -- time.rs:33: let time = hour as i64 * USECONDS_PER_HOUR
   let time : Int := hour * USECONDS_PER_HOUR + minute * USECONDS_PER_MINUTE + sec * USECONDS_PER_SECOND + usec
   time
 
+/-- No arithmetic node of `time.rs::Time::from_hms_unchecked` leaves its Rust integer type, no division by zero, no index out of range
+    (path-sensitive; calls contribute the callee's predicate). -/
+def Time.from_hms_unchecked_safe (hour : Int) (minute : Int) (sec : Int) (usec : Int) : Prop :=
+  fitsI64 (hour * USECONDS_PER_HOUR) ∧
+  fitsI64 (minute * USECONDS_PER_MINUTE) ∧
+  fitsI64 (hour * USECONDS_PER_HOUR + minute * USECONDS_PER_MINUTE) ∧
+  fitsI64 (sec * USECONDS_PER_SECOND) ∧
+  fitsI64 (hour * USECONDS_PER_HOUR + minute * USECONDS_PER_MINUTE + sec * USECONDS_PER_SECOND) ∧
+  fitsI64 (hour * USECONDS_PER_HOUR + minute * USECONDS_PER_MINUTE + sec * USECONDS_PER_SECOND + usec)
+
 /-- `date.rs::Date::and_zero_time` (date.rs:244), body sha1 186c41eea3a3 -/
 def Date.and_zero_time (self : Int) : Int :=
   Tr.Timestamp.new self (Tr.Time.from_hms_unchecked 0 0 0 0)
+
+/-- No arithmetic node of `date.rs::Date::and_zero_time` leaves its Rust integer type, no division by zero, no index out of range
+    (path-sensitive; calls contribute the callee's predicate). -/
+def Date.and_zero_time_safe (self : Int) : Prop :=
+  Tr.Time.from_hms_unchecked_safe 0 0 0 0 ∧ Tr.Timestamp.new_safe self (Tr.Time.from_hms_unchecked 0 0 0 0)
 
 /-- `timestamp.rs::Timestamp::sub_date` (timestamp.rs:161), body sha1 0421d481b3e1 -/
 def Timestamp.sub_date (self : Int) (date : Int) : Int :=
@@ -215,15 +402,32 @@ def Timestamp.sub_date (self : Int) (date : Int) : Int :=
   let temp_timestamp : Int := Tr.Date.and_zero_time date
   Tr.Timestamp.sub_timestamp self temp_timestamp
 
+/-- No arithmetic node of `timestamp.rs::Timestamp::sub_date` leaves its Rust integer type, no division by zero, no index out of range
+    (path-sensitive; calls contribute the callee's predicate). -/
+def Timestamp.sub_date_safe (self : Int) (date : Int) : Prop :=
+  Tr.Date.and_zero_time_safe date ∧
+  let temp_timestamp : Int := Tr.Date.and_zero_time date
+  Tr.Timestamp.sub_timestamp_safe self temp_timestamp
+
 /-- `date.rs::Date::extract` (date.rs:209), body sha1 8bc0426b1834 -/
 def Date.extract (self : Int) : Int × Int × Int :=
   Tr.julian2date (self + Tr.UNIX_EPOCH_JULIAN)
+
+/-- No arithmetic node of `date.rs::Date::extract` leaves its Rust integer type, no division by zero, no index out of range
+    (path-sensitive; calls contribute the callee's predicate). -/
+def Date.extract_safe (self : Int) : Prop :=
+  fitsI32 (self + Tr.UNIX_EPOCH_JULIAN) ∧ Tr.julian2date_safe (self + Tr.UNIX_EPOCH_JULIAN)
 
 /-- `date.rs::Date::from_ymd_unchecked` (date.rs:110), body sha1 b4349545ced2 -/
 def Date.from_ymd_unchecked (year : Int) (month : Int) (day : Int) : Int :=
   -- date.rs:111: let date = date2julian(year, month, day) - UNIX_EPOCH_JULIAN;
   let date : Int := Tr.date2julian year month day - Tr.UNIX_EPOCH_JULIAN
   date
+
+/-- No arithmetic node of `date.rs::Date::from_ymd_unchecked` leaves its Rust integer type, no division by zero, no index out of range
+    (path-sensitive; calls contribute the callee's predicate). -/
+def Date.from_ymd_unchecked_safe (year : Int) (month : Int) (day : Int) : Prop :=
+  Tr.date2julian_safe year month day ∧ fitsI32 (Tr.date2julian year month day - Tr.UNIX_EPOCH_JULIAN)
 
 /-- `date.rs::Date::try_from_ymd` (date.rs:117), body sha1 641a4eab8d28 -/
 def Date.try_from_ymd (year : Int) (month : Int) (day : Int) : Chk Int :=
@@ -245,6 +449,15 @@ def Date.try_from_ymd (year : Int) (month : Int) (day : Int) : Chk Int :=
     Except.error Err.InvalidDate
   else
     Except.ok (Tr.Date.from_ymd_unchecked year month day)
+
+/-- No arithmetic node of `date.rs::Date::try_from_ymd` leaves its Rust integer type, no division by zero, no index out of range
+    (path-sensitive; calls contribute the callee's predicate). -/
+def Date.try_from_ymd_safe (year : Int) (month : Int) (day : Int) : Prop :=
+  (¬ (year < DATE_MIN_YEAR ∨ year > DATE_MAX_YEAR) →
+    (¬ (month < 1 ∨ month > MONTHS_PER_YEAR) →
+      (¬ (day < 1 ∨ day > 31) →
+        Tr.days_of_month_safe year month ∧
+        (¬ day > Tr.days_of_month year month → Tr.Date.from_ymd_unchecked_safe year month day))))
 
 /-- `date.rs::Date::add_interval_ym_internal` (date.rs:259), body sha1 0877a06ce1d3 -/
 def Date.add_interval_ym_internal (self : Int) (interval : Int) : Chk Int :=
@@ -282,6 +495,52 @@ def Date.add_interval_ym_internal (self : Int) (interval : Int) : Chk Int :=
   let new_year : Int := new_month_new_year.2
   Tr.Date.try_from_ymd new_year (asU32 new_month) day
 
+/-- No arithmetic node of `date.rs::Date::add_interval_ym_internal` leaves its Rust integer type, no division by zero, no index out of range
+    (path-sensitive; calls contribute the callee's predicate). -/
+def Date.add_interval_ym_internal_safe (self : Int) (interval : Int) : Prop :=
+  Tr.Date.extract_safe self ∧
+  let year_month_day : Int × Int × Int := Tr.Date.extract self
+  let year : Int := year_month_day.1
+  let month : Int := year_month_day.2.1
+  let day : Int := year_month_day.2.2
+  fitsI32 (asI32 month + interval) ∧
+  let new_month : Int := asI32 month + interval
+  let new_year : Int := year
+  (new_month > MONTHS_PER_YEAR →
+    fitsI32 (new_month - 1) ∧
+    fitsI32 (new_year + rdiv (new_month - 1) MONTHS_PER_YEAR) ∧
+    let new_year : Int := new_year + rdiv (new_month - 1) MONTHS_PER_YEAR
+    fitsI32 (new_month - 1) ∧ fitsI32 (rrem (new_month - 1) MONTHS_PER_YEAR + 1)) ∧
+  (¬ new_month > MONTHS_PER_YEAR →
+    (new_month < 1 →
+      fitsI32 (rdiv new_month MONTHS_PER_YEAR - 1) ∧
+      fitsI32 (new_year + (rdiv new_month MONTHS_PER_YEAR - 1)) ∧
+      let new_year : Int := new_year + (rdiv new_month MONTHS_PER_YEAR - 1)
+      fitsI32 (rrem new_month MONTHS_PER_YEAR + MONTHS_PER_YEAR))) ∧
+  let new_month_new_year : Int × Int :=
+    if new_month > MONTHS_PER_YEAR then
+      -- date.rs:266: new_year += (new_month - 1) / MONTHS_PER_YEAR as i32;
+      let new_year : Int := new_year + rdiv (new_month - 1) MONTHS_PER_YEAR
+      -- date.rs:267: new_month = (new_month - 1) % MONTHS_PER_YEAR as i32 + 1;
+      let new_month : Int := rrem (new_month - 1) MONTHS_PER_YEAR + 1
+      (new_month, new_year)
+    else
+      let new_month_new_year : Int × Int :=
+        if new_month < 1 then
+          -- date.rs:269: new_year += new_month / MONTHS_PER_YEAR as i32 - 1;
+          let new_year : Int := new_year + (rdiv new_month MONTHS_PER_YEAR - 1)
+          -- date.rs:270: new_month = new_month % MONTHS_PER_YEAR as i32 + MONTHS_PER_YEAR as i32;
+          let new_month : Int := rrem new_month MONTHS_PER_YEAR + MONTHS_PER_YEAR
+          (new_month, new_year)
+        else
+          (new_month, new_year)
+      let new_month : Int := new_month_new_year.1
+      let new_year : Int := new_month_new_year.2
+      (new_month, new_year)
+  let new_month : Int := new_month_new_year.1
+  let new_year : Int := new_month_new_year.2
+  Tr.Date.try_from_ymd_safe new_year (asU32 new_month) day
+
 /-- `timestamp.rs::Timestamp::add_interval_ym` (timestamp.rs:127), body sha1 f8d2fdb0495d -/
 def Timestamp.add_interval_ym (self : Int) (interval : Int) : Chk Int :=
   -- timestamp.rs:128: let (date, time) = self.extract();
@@ -292,13 +551,35 @@ def Timestamp.add_interval_ym (self : Int) (interval : Int) : Chk Int :=
   | Except.error err => Except.error err
   | Except.ok r1 => Except.ok (Tr.Timestamp.new r1 time)
 
+/-- No arithmetic node of `timestamp.rs::Timestamp::add_interval_ym` leaves its Rust integer type, no division by zero, no index out of range
+    (path-sensitive; calls contribute the callee's predicate). -/
+def Timestamp.add_interval_ym_safe (self : Int) (interval : Int) : Prop :=
+  Tr.Timestamp.extract_safe self ∧
+  let date_time : Int × Int := Tr.Timestamp.extract self
+  let date : Int := date_time.1
+  let time : Int := date_time.2
+  Tr.Date.add_interval_ym_internal_safe date interval ∧
+  (match Tr.Date.add_interval_ym_internal date interval with
+   | Except.error err => True
+   | Except.ok r1 => Tr.Timestamp.new_safe r1 time)
+
 /-- `interval.rs::IntervalYM::negate` (interval.rs:143), body sha1 1a64313d1145 -/
 def IntervalYM.negate (self : Int) : Int :=
   -self
 
+/-- No arithmetic node of `interval.rs::IntervalYM::negate` leaves its Rust integer type, no division by zero, no index out of range
+    (path-sensitive; calls contribute the callee's predicate). -/
+def IntervalYM.negate_safe (self : Int) : Prop :=
+  fitsI32 (-self)
+
 /-- `timestamp.rs::Timestamp::sub_interval_ym` (timestamp.rs:187), body sha1 6f9bc0d5fbbc -/
 def Timestamp.sub_interval_ym (self : Int) (interval : Int) : Chk Int :=
   Tr.Timestamp.add_interval_ym self (Tr.IntervalYM.negate interval)
+
+/-- No arithmetic node of `timestamp.rs::Timestamp::sub_interval_ym` leaves its Rust integer type, no division by zero, no index out of range
+    (path-sensitive; calls contribute the callee's predicate). -/
+def Timestamp.sub_interval_ym_safe (self : Int) (interval : Int) : Prop :=
+  Tr.IntervalYM.negate_safe interval ∧ Tr.Timestamp.add_interval_ym_safe self (Tr.IntervalYM.negate interval)
 
 /-- `timestamp.rs::Timestamp::last_day_of_month` (timestamp.rs:216), body sha1 888d12db1660 -/
 def Timestamp.last_day_of_month (self : Int) : Int :=
@@ -316,18 +597,53 @@ def Timestamp.last_day_of_month (self : Int) : Int :=
   let result : Int := self + (result_day - day) * USECONDS_PER_DAY
   result
 
+/-- No arithmetic node of `timestamp.rs::Timestamp::last_day_of_month` leaves its Rust integer type, no division by zero, no index out of range
+    (path-sensitive; calls contribute the callee's predicate). -/
+def Timestamp.last_day_of_month_safe (self : Int) : Prop :=
+  Tr.Timestamp.extract_safe self ∧
+  let t1 : Int × Int := Tr.Timestamp.extract self
+  let sqldate : Int := t1.1
+  Tr.Date.extract_safe sqldate ∧
+  let year_month_day : Int × Int × Int := Tr.Date.extract sqldate
+  let year : Int := year_month_day.1
+  let month : Int := year_month_day.2.1
+  let day : Int := year_month_day.2.2
+  Tr.days_of_month_safe year month ∧
+  let result_day : Int := Tr.days_of_month year month
+  fitsU32 (result_day - day) ∧
+  fitsI64 ((result_day - day) * USECONDS_PER_DAY) ∧
+  fitsI64 (self + (result_day - day) * USECONDS_PER_DAY)
+
 /-- `timestamp.rs::Trunc for Timestamp::trunc_day` (timestamp.rs:269), body sha1 4804b16cd691 -/
 def Timestamp.trunc_day (self : Int) : Chk Int :=
   Except.ok (Tr.Date.and_zero_time (Tr.Timestamp.date self))
+
+/-- No arithmetic node of `timestamp.rs::Trunc for Timestamp::trunc_day` leaves its Rust integer type, no division by zero, no index out of range
+    (path-sensitive; calls contribute the callee's predicate). -/
+def Timestamp.trunc_day_safe (self : Int) : Prop :=
+  Tr.Timestamp.date_safe self ∧ Tr.Date.and_zero_time_safe (Tr.Timestamp.date self)
 
 /-- `date.rs::Date::and_time` (date.rs:224), body sha1 d58f4fe29e38 -/
 def Date.and_time (self : Int) (time : Int) : Int :=
   Tr.Timestamp.new self time
 
+/-- No arithmetic node of `date.rs::Date::and_time` leaves its Rust integer type, no division by zero, no index out of range
+    (path-sensitive; calls contribute the callee's predicate). -/
+def Date.and_time_safe (self : Int) (time : Int) : Prop :=
+  Tr.Timestamp.new_safe self time
+
 /-- `timestamp.rs::Trunc for Timestamp::trunc_hour` (timestamp.rs:279), body sha1 f8f7f61d3de7 -/
 -- inlined helpers: time.rs::DateTime for Time::hour, timestamp.rs::DateTime for Timestamp::hour
 def Timestamp.trunc_hour (self : Int) : Chk Int :=
   Except.ok (Tr.Date.and_time (Tr.Timestamp.date self) (Tr.Time.from_hms_unchecked (asU32 ((fun (self : Int) => (fun (self : Int) => asI32 (rdiv self USECONDS_PER_HOUR)) (Tr.Timestamp.time self)) self)) 0 0 0))
+
+/-- No arithmetic node of `timestamp.rs::Trunc for Timestamp::trunc_hour` leaves its Rust integer type, no division by zero, no index out of range
+    (path-sensitive; calls contribute the callee's predicate). -/
+def Timestamp.trunc_hour_safe (self : Int) : Prop :=
+  Tr.Timestamp.date_safe self ∧
+  (fun (self : Int) => Tr.Timestamp.time_safe self) self ∧
+  (Tr.Time.from_hms_unchecked_safe (asU32 ((fun (self : Int) => (fun (self : Int) => asI32 (rdiv self USECONDS_PER_HOUR)) (Tr.Timestamp.time self)) self)) 0 0 0) ∧
+  (Tr.Date.and_time_safe (Tr.Timestamp.date self) (Tr.Time.from_hms_unchecked (asU32 ((fun (self : Int) => (fun (self : Int) => asI32 (rdiv self USECONDS_PER_HOUR)) (Tr.Timestamp.time self)) self)) 0 0 0))
 
 /-- `time.rs::Time::extract` (time.rs:131), body sha1 66bb0ca0a670 -/
 def Time.extract (self : Int) : Int × Int × Int × Int :=
@@ -349,6 +665,21 @@ def Time.extract (self : Int) : Int × Int × Int × Int :=
   let usec : Int := asU32 time
   (hour, minute, sec, usec)
 
+/-- No arithmetic node of `time.rs::Time::extract` leaves its Rust integer type, no division by zero, no index out of range
+    (path-sensitive; calls contribute the callee's predicate). -/
+def Time.extract_safe (self : Int) : Prop :=
+  let time : Int := self
+  let hour : Int := asU32 (rdiv time USECONDS_PER_HOUR)
+  fitsI64 (hour * USECONDS_PER_HOUR) ∧
+  fitsI64 (time - hour * USECONDS_PER_HOUR) ∧
+  let time : Int := time - hour * USECONDS_PER_HOUR
+  let minute : Int := asU32 (rdiv time USECONDS_PER_MINUTE)
+  fitsI64 (minute * USECONDS_PER_MINUTE) ∧
+  fitsI64 (time - minute * USECONDS_PER_MINUTE) ∧
+  let time : Int := time - minute * USECONDS_PER_MINUTE
+  let sec : Int := asU32 (rdiv time USECONDS_PER_SECOND)
+  fitsI64 (sec * USECONDS_PER_SECOND) ∧ fitsI64 (time - sec * USECONDS_PER_SECOND)
+
 /-- `timestamp.rs::Trunc for Timestamp::trunc_minute` (timestamp.rs:286), body sha1 a63ca5368add -/
 def Timestamp.trunc_minute (self : Int) : Chk Int :=
   -- timestamp.rs:287: let (hour, minute, _, _) = self.time().extract();
@@ -356,6 +687,18 @@ def Timestamp.trunc_minute (self : Int) : Chk Int :=
   let hour : Int := hour_minute.1
   let minute : Int := hour_minute.2.1
   Except.ok (Tr.Date.and_time (Tr.Timestamp.date self) (Tr.Time.from_hms_unchecked hour minute 0 0))
+
+/-- No arithmetic node of `timestamp.rs::Trunc for Timestamp::trunc_minute` leaves its Rust integer type, no division by zero, no index out of range
+    (path-sensitive; calls contribute the callee's predicate). -/
+def Timestamp.trunc_minute_safe (self : Int) : Prop :=
+  Tr.Timestamp.time_safe self ∧
+  Tr.Time.extract_safe (Tr.Timestamp.time self) ∧
+  let hour_minute : Int × Int × Int × Int := Tr.Time.extract (Tr.Timestamp.time self)
+  let hour : Int := hour_minute.1
+  let minute : Int := hour_minute.2.1
+  Tr.Timestamp.date_safe self ∧
+  Tr.Time.from_hms_unchecked_safe hour minute 0 0 ∧
+  Tr.Date.and_time_safe (Tr.Timestamp.date self) (Tr.Time.from_hms_unchecked hour minute 0 0)
 
 /-- `time.rs::Time::try_from_hms` (time.rs:42), body sha1 2eb688ad901b -/
 def Time.try_from_hms (hour : Int) (minute : Int) (sec : Int) (usec : Int) : Chk Int :=
@@ -378,6 +721,14 @@ def Time.try_from_hms (hour : Int) (minute : Int) (sec : Int) (usec : Int) : Chk
   else
     Except.ok (Tr.Time.from_hms_unchecked hour minute sec usec)
 
+/-- No arithmetic node of `time.rs::Time::try_from_hms` leaves its Rust integer type, no division by zero, no index out of range
+    (path-sensitive; calls contribute the callee's predicate). -/
+def Time.try_from_hms_safe (hour : Int) (minute : Int) (sec : Int) (usec : Int) : Prop :=
+  (¬ hour ≥ HOURS_PER_DAY →
+    (¬ minute ≥ MINUTES_PER_HOUR →
+      (¬ sec ≥ SECONDS_PER_MINUTE →
+        ¬ usec > USECONDS_MAX → Tr.Time.from_hms_unchecked_safe hour minute sec usec)))
+
 /-- `time.rs::Time::is_valid` (time.rs:64), body sha1 825c4e08b0b7 -/
 def Time.is_valid (hour : Int) (minute : Int) (sec : Int) (usec : Int) : Bool :=
   -- time.rs:65: if hour >= HOURS_PER_DAY {
@@ -399,6 +750,11 @@ def Time.is_valid (hour : Int) (minute : Int) (sec : Int) (usec : Int) : Bool :=
   else
     true
 
+/-- No arithmetic node of `time.rs::Time::is_valid` leaves its Rust integer type, no division by zero, no index out of range
+    (path-sensitive; calls contribute the callee's predicate). -/
+def Time.is_valid_safe (hour : Int) (minute : Int) (sec : Int) (usec : Int) : Prop :=
+  True
+
 /-- `time.rs::Time::validate_hms` (time.rs:86), body sha1 e0f71a096de5 -/
 def Time.validate_hms (hour : Int) (minute : Int) (sec : Int) : Chk Unit :=
   -- time.rs:87: if hour >= HOURS_PER_DAY {
@@ -416,13 +772,28 @@ def Time.validate_hms (hour : Int) (minute : Int) (sec : Int) : Chk Unit :=
   else
     Except.ok ()
 
+/-- No arithmetic node of `time.rs::Time::validate_hms` leaves its Rust integer type, no division by zero, no index out of range
+    (path-sensitive; calls contribute the callee's predicate). -/
+def Time.validate_hms_safe (hour : Int) (minute : Int) (sec : Int) : Prop :=
+  True
+
 /-- `time.rs::Time::try_from_usecs` (time.rs:121), body sha1 4cd32462594e -/
 def Time.try_from_usecs (usecs : Int) : Chk Int :=
   if Tr.is_valid_time usecs = true then Except.ok usecs else Except.error Err.TimeOutOfRange
 
+/-- No arithmetic node of `time.rs::Time::try_from_usecs` leaves its Rust integer type, no division by zero, no index out of range
+    (path-sensitive; calls contribute the callee's predicate). -/
+def Time.try_from_usecs_safe (usecs : Int) : Prop :=
+  Tr.is_valid_time_safe usecs
+
 /-- `time.rs::Time::sub_time` (time.rs:164), body sha1 e74efdddd606 -/
 def Time.sub_time (self : Int) (time : Int) : Int :=
   self - time
+
+/-- No arithmetic node of `time.rs::Time::sub_time` leaves its Rust integer type, no division by zero, no index out of range
+    (path-sensitive; calls contribute the callee's predicate). -/
+def Time.sub_time_safe (self : Int) (time : Int) : Prop :=
+  fitsI64 (self - time)
 
 /-- `time.rs::Time::add_interval_dt` (time.rs:170), body sha1 f9e10331260e -/
 def Time.add_interval_dt (self : Int) (interval : Int) : Int :=
@@ -430,9 +801,21 @@ def Time.add_interval_dt (self : Int) (interval : Int) : Int :=
   let temp_result : Int := self + rrem interval USECONDS_PER_DAY
   if temp_result ≥ 0 then rrem temp_result USECONDS_PER_DAY else temp_result + USECONDS_PER_DAY
 
+/-- No arithmetic node of `time.rs::Time::add_interval_dt` leaves its Rust integer type, no division by zero, no index out of range
+    (path-sensitive; calls contribute the callee's predicate). -/
+def Time.add_interval_dt_safe (self : Int) (interval : Int) : Prop :=
+  fitsI64 (self + rrem interval USECONDS_PER_DAY) ∧
+  let temp_result : Int := self + rrem interval USECONDS_PER_DAY
+  ¬ temp_result ≥ 0 → fitsI64 (temp_result + USECONDS_PER_DAY)
+
 /-- `time.rs::Time::sub_interval_dt` (time.rs:181), body sha1 31860c72f51f -/
 def Time.sub_interval_dt (self : Int) (interval : Int) : Int :=
   Tr.Time.add_interval_dt self (Tr.IntervalDT.negate interval)
+
+/-- No arithmetic node of `time.rs::Time::sub_interval_dt` leaves its Rust integer type, no division by zero, no index out of range
+    (path-sensitive; calls contribute the callee's predicate). -/
+def Time.sub_interval_dt_safe (self : Int) (interval : Int) : Prop :=
+  Tr.IntervalDT.negate_safe interval ∧ Tr.Time.add_interval_dt_safe self (Tr.IntervalDT.negate interval)
 
 /-- `time.rs::From<IntervalDT> for Time::from` (time.rs:222), body sha1 dd0830b2e669 -/
 def Time.from_interval_dt (interval : Int) : Int :=
@@ -440,9 +823,19 @@ def Time.from_interval_dt (interval : Int) : Int :=
   let usec : Int := rrem (absI64 interval) USECONDS_PER_DAY
   usec
 
+/-- No arithmetic node of `time.rs::From<IntervalDT> for Time::from` leaves its Rust integer type, no division by zero, no index out of range
+    (path-sensitive; calls contribute the callee's predicate). -/
+def Time.from_interval_dt_safe (interval : Int) : Prop :=
+  fitsI64 (absI interval)
+
 /-- `interval.rs::IntervalYM::from_ym_unchecked` (interval.rs:52), body sha1 27c5c8c30a92 -/
 def IntervalYM.from_ym_unchecked (year : Int) (month : Int) : Int :=
   asI32 (year * MONTHS_PER_YEAR + month)
+
+/-- No arithmetic node of `interval.rs::IntervalYM::from_ym_unchecked` leaves its Rust integer type, no division by zero, no index out of range
+    (path-sensitive; calls contribute the callee's predicate). -/
+def IntervalYM.from_ym_unchecked_safe (year : Int) (month : Int) : Prop :=
+  fitsU32 (year * MONTHS_PER_YEAR) ∧ fitsU32 (year * MONTHS_PER_YEAR + month)
 
 /-- `interval.rs::IntervalYM::try_from_ym` (interval.rs:68), body sha1 1a21bcd1a78d -/
 def IntervalYM.try_from_ym (year : Int) (month : Int) : Chk Int :=
@@ -457,6 +850,12 @@ def IntervalYM.try_from_ym (year : Int) (month : Int) : Chk Int :=
   else
     Except.ok (Tr.IntervalYM.from_ym_unchecked year month)
 
+/-- No arithmetic node of `interval.rs::IntervalYM::try_from_ym` leaves its Rust integer type, no division by zero, no index out of range
+    (path-sensitive; calls contribute the callee's predicate). -/
+def IntervalYM.try_from_ym_safe (year : Int) (month : Int) : Prop :=
+  (¬ (year ≥ INTERVAL_MAX_YEAR ∧ (year ≠ INTERVAL_MAX_YEAR ∨ month ≠ 0)) →
+    ¬ month ≥ MONTHS_PER_YEAR → Tr.IntervalYM.from_ym_unchecked_safe year month)
+
 /-- `interval.rs::IntervalYM::is_valid_ym` (interval.rs:92), body sha1 8db3a4846a79 -/
 def IntervalYM.is_valid_ym (year : Int) (month : Int) : Bool :=
   -- interval.rs:93: if year >= INTERVAL_MAX_YEAR as u32 && (year != INTERVAL_MAX_YEAR as u32 || month != 0) {
@@ -470,9 +869,19 @@ def IntervalYM.is_valid_ym (year : Int) (month : Int) : Bool :=
   else
     true
 
+/-- No arithmetic node of `interval.rs::IntervalYM::is_valid_ym` leaves its Rust integer type, no division by zero, no index out of range
+    (path-sensitive; calls contribute the callee's predicate). -/
+def IntervalYM.is_valid_ym_safe (year : Int) (month : Int) : Prop :=
+  True
+
 /-- `interval.rs::IntervalYM::is_valid_months` (interval.rs:106), body sha1 a9ce84d8e75e -/
 def IntervalYM.is_valid_months (months : Int) : Bool :=
   decide (months ≤ INTERVAL_MAX_MONTH ∧ months ≥ -INTERVAL_MAX_MONTH)
+
+/-- No arithmetic node of `interval.rs::IntervalYM::is_valid_months` leaves its Rust integer type, no division by zero, no index out of range
+    (path-sensitive; calls contribute the callee's predicate). -/
+def IntervalYM.is_valid_months_safe (months : Int) : Prop :=
+  months ≤ INTERVAL_MAX_MONTH → fitsI32 (-INTERVAL_MAX_MONTH)
 
 /-- `interval.rs::IntervalYM::try_from_months` (interval.rs:82), body sha1 6ac464751b75 -/
 def IntervalYM.try_from_months (months : Int) : Chk Int :=
@@ -480,6 +889,11 @@ def IntervalYM.try_from_months (months : Int) : Chk Int :=
     Except.ok months
   else
     Except.error Err.IntervalOutOfRange
+
+/-- No arithmetic node of `interval.rs::IntervalYM::try_from_months` leaves its Rust integer type, no division by zero, no index out of range
+    (path-sensitive; calls contribute the callee's predicate). -/
+def IntervalYM.try_from_months_safe (months : Int) : Prop :=
+  Tr.IntervalYM.is_valid_months_safe months
 
 /-- `interval.rs::IntervalYM::extract` (interval.rs:118), body sha1 6dc21805b26c -/
 def IntervalYM.extract (self : Int) : Int × Int × Int :=
@@ -492,6 +906,17 @@ def IntervalYM.extract (self : Int) : Int × Int × Int :=
     let year : Int := asU32 self / MONTHS_PER_YEAR
     (1, year, asU32 self - year * MONTHS_PER_YEAR)
 
+/-- No arithmetic node of `interval.rs::IntervalYM::extract` leaves its Rust integer type, no division by zero, no index out of range
+    (path-sensitive; calls contribute the callee's predicate). -/
+def IntervalYM.extract_safe (self : Int) : Prop :=
+  (self < 0 →
+    fitsI32 (-self) ∧
+    let year : Int := asU32 (-self) / MONTHS_PER_YEAR
+    (fitsI32 (-self) ∧ fitsU32 (year * MONTHS_PER_YEAR)) ∧ fitsU32 (asU32 (-self) - year * MONTHS_PER_YEAR)) ∧
+  (¬ self < 0 →
+    let year : Int := asU32 self / MONTHS_PER_YEAR
+    fitsU32 (year * MONTHS_PER_YEAR) ∧ fitsU32 (asU32 self - year * MONTHS_PER_YEAR))
+
 /-- `interval.rs::IntervalYM::add_interval_ym` (interval.rs:149), body sha1 1ece819c0f2d -/
 def IntervalYM.add_interval_ym (self : Int) (interval : Int) : Chk Int :=
   -- interval.rs:150: let result = self.months().checked_add(interval.months());
@@ -500,9 +925,31 @@ def IntervalYM.add_interval_ym (self : Int) (interval : Int) : Chk Int :=
   | some i => Tr.IntervalYM.try_from_months i
   | none => Except.error Err.IntervalOutOfRange
 
+/-- No arithmetic node of `interval.rs::IntervalYM::add_interval_ym` leaves its Rust integer type, no division by zero, no index out of range
+    (path-sensitive; calls contribute the callee's predicate). -/
+def IntervalYM.add_interval_ym_safe (self : Int) (interval : Int) : Prop :=
+  let result : Option Int := checkedI32 (self + interval)
+  match result with
+  | some i => Tr.IntervalYM.try_from_months_safe i
+  | none => True
+
 /-- `interval.rs::IntervalYM::sub_interval_ym` (interval.rs:159), body sha1 6f9bc0d5fbbc -/
 def IntervalYM.sub_interval_ym (self : Int) (interval : Int) : Chk Int :=
   Tr.IntervalYM.add_interval_ym self (Tr.IntervalYM.negate interval)
+
+/-- No arithmetic node of `interval.rs::IntervalYM::sub_interval_ym` leaves its Rust integer type, no division by zero, no index out of range
+    (path-sensitive; calls contribute the callee's predicate). -/
+def IntervalYM.sub_interval_ym_safe (self : Int) (interval : Int) : Prop :=
+  Tr.IntervalYM.negate_safe interval ∧ Tr.IntervalYM.add_interval_ym_safe self (Tr.IntervalYM.negate interval)
+
+/-- `interval.rs::Ord for IntervalYM::cmp` (interval.rs:32), body sha1 955539a817ee -/
+def IntervalYM.cmp (self : Int) (other : Int) : Int :=
+  cmpInt self other
+
+/-- No arithmetic node of `interval.rs::Ord for IntervalYM::cmp` leaves its Rust integer type, no division by zero, no index out of range
+    (path-sensitive; calls contribute the callee's predicate). -/
+def IntervalYM.cmp_safe (self : Int) (other : Int) : Prop :=
+  True
 
 /-- `interval.rs::IntervalDT::from_dhms_unchecked` (interval.rs:294), body sha1 768275a14bff -/
 def IntervalDT.from_dhms_unchecked (day : Int) (hour : Int) (minute : Int) (sec : Int) (usec : Int) : Int :=
@@ -511,6 +958,18 @@ def IntervalDT.from_dhms_unchecked (day : Int) (hour : Int) (minute : Int) (sec 
   -- interval.rs:305: let us = day as i64 * USECONDS_PER_DAY + time;
   let us : Int := day * USECONDS_PER_DAY + time
   us
+
+/-- No arithmetic node of `interval.rs::IntervalDT::from_dhms_unchecked` leaves its Rust integer type, no division by zero, no index out of range
+    (path-sensitive; calls contribute the callee's predicate). -/
+def IntervalDT.from_dhms_unchecked_safe (day : Int) (hour : Int) (minute : Int) (sec : Int) (usec : Int) : Prop :=
+  fitsI64 (hour * USECONDS_PER_HOUR) ∧
+  fitsI64 (minute * USECONDS_PER_MINUTE) ∧
+  fitsI64 (hour * USECONDS_PER_HOUR + minute * USECONDS_PER_MINUTE) ∧
+  fitsI64 (sec * USECONDS_PER_SECOND) ∧
+  fitsI64 (hour * USECONDS_PER_HOUR + minute * USECONDS_PER_MINUTE + sec * USECONDS_PER_SECOND) ∧
+  fitsI64 (hour * USECONDS_PER_HOUR + minute * USECONDS_PER_MINUTE + sec * USECONDS_PER_SECOND + usec) ∧
+  let time : Int := hour * USECONDS_PER_HOUR + minute * USECONDS_PER_MINUTE + sec * USECONDS_PER_SECOND + usec
+  fitsI64 (day * USECONDS_PER_DAY) ∧ fitsI64 (day * USECONDS_PER_DAY + time)
 
 /-- `interval.rs::IntervalDT::try_from_dhms` (interval.rs:311), body sha1 1cf1ce606462 -/
 def IntervalDT.try_from_dhms (day : Int) (hour : Int) (minute : Int) (sec : Int) (usec : Int) : Chk Int :=
@@ -537,6 +996,15 @@ def IntervalDT.try_from_dhms (day : Int) (hour : Int) (minute : Int) (sec : Int)
   else
     Except.ok (Tr.IntervalDT.from_dhms_unchecked day hour minute sec usec)
 
+/-- No arithmetic node of `interval.rs::IntervalDT::try_from_dhms` leaves its Rust integer type, no division by zero, no index out of range
+    (path-sensitive; calls contribute the callee's predicate). -/
+def IntervalDT.try_from_dhms_safe (day : Int) (hour : Int) (minute : Int) (sec : Int) (usec : Int) : Prop :=
+  (¬ (day ≥ INTERVAL_MAX_DAY ∧ ((((day ≠ INTERVAL_MAX_DAY ∨ hour ≠ 0) ∨ minute ≠ 0) ∨ sec ≠ 0) ∨ usec ≠ 0)) →
+    (¬ hour ≥ HOURS_PER_DAY →
+      (¬ minute ≥ MINUTES_PER_HOUR →
+        (¬ sec ≥ SECONDS_PER_MINUTE →
+          ¬ usec > USECONDS_MAX → Tr.IntervalDT.from_dhms_unchecked_safe day hour minute sec usec))))
+
 /-- `interval.rs::IntervalDT::is_valid` (interval.rs:365), body sha1 30e539255bf9 -/
 def IntervalDT.is_valid (day : Int) (hour : Int) (minute : Int) (sec : Int) (usec : Int) : Bool :=
   -- interval.rs:366: if day >= INTERVAL_MAX_DAY as u32
@@ -562,13 +1030,28 @@ def IntervalDT.is_valid (day : Int) (hour : Int) (minute : Int) (sec : Int) (use
   else
     true
 
+/-- No arithmetic node of `interval.rs::IntervalDT::is_valid` leaves its Rust integer type, no division by zero, no index out of range
+    (path-sensitive; calls contribute the callee's predicate). -/
+def IntervalDT.is_valid_safe (day : Int) (hour : Int) (minute : Int) (sec : Int) (usec : Int) : Prop :=
+  True
+
 /-- `interval.rs::IntervalDT::is_valid_usecs` (interval.rs:392), body sha1 7c8de32752e9 -/
 def IntervalDT.is_valid_usecs (usecs : Int) : Bool :=
   decide (usecs ≤ INTERVAL_MAX_USECONDS ∧ usecs ≥ -INTERVAL_MAX_USECONDS)
 
+/-- No arithmetic node of `interval.rs::IntervalDT::is_valid_usecs` leaves its Rust integer type, no division by zero, no index out of range
+    (path-sensitive; calls contribute the callee's predicate). -/
+def IntervalDT.is_valid_usecs_safe (usecs : Int) : Prop :=
+  usecs ≤ INTERVAL_MAX_USECONDS → fitsI64 (-INTERVAL_MAX_USECONDS)
+
 /-- `interval.rs::IntervalDT::try_from_usecs` (interval.rs:355), body sha1 bdefa3a79b7c -/
 def IntervalDT.try_from_usecs (usecs : Int) : Chk Int :=
   if Tr.IntervalDT.is_valid_usecs usecs = true then Except.ok usecs else Except.error Err.IntervalOutOfRange
+
+/-- No arithmetic node of `interval.rs::IntervalDT::try_from_usecs` leaves its Rust integer type, no division by zero, no index out of range
+    (path-sensitive; calls contribute the callee's predicate). -/
+def IntervalDT.try_from_usecs_safe (usecs : Int) : Prop :=
+  Tr.IntervalDT.is_valid_usecs_safe usecs
 
 /-- `interval.rs::IntervalDT::extract` (interval.rs:404), body sha1 589973dce0e1 -/
 def IntervalDT.extract (self : Int) : Int × Int × Int × Int × Int × Int :=
@@ -599,6 +1082,39 @@ def IntervalDT.extract (self : Int) : Int × Int × Int × Int × Int × Int :=
   let usec : Int := time - sec * USECONDS_PER_SECOND
   (sign, asU32 day, asU32 hour, asU32 minute, asU32 sec, asU32 usec)
 
+/-- No arithmetic node of `interval.rs::IntervalDT::extract` leaves its Rust integer type, no division by zero, no index out of range
+    (path-sensitive; calls contribute the callee's predicate). -/
+def IntervalDT.extract_safe (self : Int) : Prop :=
+  (self < 0 →
+    fitsI64 (-self) ∧
+    let day : Int := rdiv (-self) USECONDS_PER_DAY
+    (fitsI64 (-self) ∧ fitsI64 (day * USECONDS_PER_DAY)) ∧ fitsI64 (-self - day * USECONDS_PER_DAY)) ∧
+  (¬ self < 0 →
+    let day : Int := rdiv self USECONDS_PER_DAY
+    fitsI64 (day * USECONDS_PER_DAY) ∧ fitsI64 (self - day * USECONDS_PER_DAY)) ∧
+  let sign_day_time : Int × Int × Int :=
+    if self < 0 then
+      -- interval.rs:406: let day = -self.0 / USECONDS_PER_DAY;
+      let day : Int := rdiv (-self) USECONDS_PER_DAY
+      (-1, day, -self - day * USECONDS_PER_DAY)
+    else
+      -- interval.rs:409: let day = self.0 / USECONDS_PER_DAY;
+      let day : Int := rdiv self USECONDS_PER_DAY
+      (1, day, self - day * USECONDS_PER_DAY)
+  let sign : Int := sign_day_time.1
+  let day : Int := sign_day_time.2.1
+  let time : Int := sign_day_time.2.2
+  let hour : Int := rdiv time USECONDS_PER_HOUR
+  fitsI64 (hour * USECONDS_PER_HOUR) ∧
+  fitsI64 (time - hour * USECONDS_PER_HOUR) ∧
+  let time : Int := time - hour * USECONDS_PER_HOUR
+  let minute : Int := rdiv time USECONDS_PER_MINUTE
+  fitsI64 (minute * USECONDS_PER_MINUTE) ∧
+  fitsI64 (time - minute * USECONDS_PER_MINUTE) ∧
+  let time : Int := time - minute * USECONDS_PER_MINUTE
+  let sec : Int := rdiv time USECONDS_PER_SECOND
+  fitsI64 (sec * USECONDS_PER_SECOND) ∧ fitsI64 (time - sec * USECONDS_PER_SECOND)
+
 /-- `interval.rs::IntervalDT::add_interval_dt` (interval.rs:453), body sha1 0b9ffbe30cfb -/
 def IntervalDT.add_interval_dt (self : Int) (interval : Int) : Chk Int :=
   -- interval.rs:454: let result = self.usecs().checked_add(interval.usecs());
@@ -607,13 +1123,31 @@ def IntervalDT.add_interval_dt (self : Int) (interval : Int) : Chk Int :=
   | some i => Tr.IntervalDT.try_from_usecs i
   | none => Except.error Err.IntervalOutOfRange
 
+/-- No arithmetic node of `interval.rs::IntervalDT::add_interval_dt` leaves its Rust integer type, no division by zero, no index out of range
+    (path-sensitive; calls contribute the callee's predicate). -/
+def IntervalDT.add_interval_dt_safe (self : Int) (interval : Int) : Prop :=
+  let result : Option Int := checkedI64 (self + interval)
+  match result with
+  | some i => Tr.IntervalDT.try_from_usecs_safe i
+  | none => True
+
 /-- `interval.rs::IntervalDT::sub_interval_dt` (interval.rs:463), body sha1 31860c72f51f -/
 def IntervalDT.sub_interval_dt (self : Int) (interval : Int) : Chk Int :=
   Tr.IntervalDT.add_interval_dt self (Tr.IntervalDT.negate interval)
 
+/-- No arithmetic node of `interval.rs::IntervalDT::sub_interval_dt` leaves its Rust integer type, no division by zero, no index out of range
+    (path-sensitive; calls contribute the callee's predicate). -/
+def IntervalDT.sub_interval_dt_safe (self : Int) (interval : Int) : Prop :=
+  Tr.IntervalDT.negate_safe interval ∧ Tr.IntervalDT.add_interval_dt_safe self (Tr.IntervalDT.negate interval)
+
 /-- `interval.rs::IntervalDT::sub_time` (interval.rs:502), body sha1 3df68ce792e2 -/
 def IntervalDT.sub_time (self : Int) (time : Int) : Chk Int :=
   Tr.IntervalDT.try_from_usecs (self - time)
+
+/-- No arithmetic node of `interval.rs::IntervalDT::sub_time` leaves its Rust integer type, no division by zero, no index out of range
+    (path-sensitive; calls contribute the callee's predicate). -/
+def IntervalDT.sub_time_safe (self : Int) (time : Int) : Prop :=
+  fitsI64 (self - time) ∧ Tr.IntervalDT.try_from_usecs_safe (self - time)
 
 /-- `date.rs::Date::is_valid` (date.rs:139), body sha1 4487b69d9774 -/
 def Date.is_valid (year : Int) (month : Int) (day : Int) : Bool :=
@@ -636,6 +1170,12 @@ def Date.is_valid (year : Int) (month : Int) (day : Int) : Bool :=
   else
     true
 
+/-- No arithmetic node of `date.rs::Date::is_valid` leaves its Rust integer type, no division by zero, no index out of range
+    (path-sensitive; calls contribute the callee's predicate). -/
+def Date.is_valid_safe (year : Int) (month : Int) (day : Int) : Prop :=
+  (¬ (year < DATE_MIN_YEAR ∨ year > DATE_MAX_YEAR) →
+    ¬ (month < 1 ∨ month > MONTHS_PER_YEAR) → ¬ (day < 1 ∨ day > 31) → Tr.days_of_month_safe year month)
+
 /-- `date.rs::Date::validate_ymd` (date.rs:161), body sha1 07259a877af1 -/
 def Date.validate_ymd (year : Int) (month : Int) (day : Int) : Chk Unit :=
   -- date.rs:162: if year < DATE_MIN_YEAR || year > DATE_MAX_YEAR {
@@ -657,15 +1197,34 @@ def Date.validate_ymd (year : Int) (month : Int) (day : Int) : Chk Unit :=
   else
     Except.ok ()
 
+/-- No arithmetic node of `date.rs::Date::validate_ymd` leaves its Rust integer type, no division by zero, no index out of range
+    (path-sensitive; calls contribute the callee's predicate). -/
+def Date.validate_ymd_safe (year : Int) (month : Int) (day : Int) : Prop :=
+  (¬ (year < DATE_MIN_YEAR ∨ year > DATE_MAX_YEAR) →
+    ¬ (month < 1 ∨ month > MONTHS_PER_YEAR) → ¬ (day < 1 ∨ day > 31) → Tr.days_of_month_safe year month)
+
 /-- `date.rs::Date::try_from_days` (date.rs:199), body sha1 53ce2411f8b9 -/
 def Date.try_from_days (days : Int) : Chk Int :=
   if Tr.is_valid_date days = true then Except.ok days else Except.error Err.DateOutOfRange
+
+/-- No arithmetic node of `date.rs::Date::try_from_days` leaves its Rust integer type, no division by zero, no index out of range
+    (path-sensitive; calls contribute the callee's predicate). -/
+def Date.try_from_days_safe (days : Int) : Prop :=
+  Tr.is_valid_date_safe days
 
 /-- `date.rs::Date::and_hms` (date.rs:215), body sha1 1a9b12d70ac7 -/
 def Date.and_hms (self : Int) (hour : Int) (minute : Int) (sec : Int) (usec : Int) : Chk Int :=
   match Tr.Time.try_from_hms hour minute sec usec with
   | Except.error err => Except.error err
   | Except.ok r1 => Except.ok (Tr.Timestamp.new self r1)
+
+/-- No arithmetic node of `date.rs::Date::and_hms` leaves its Rust integer type, no division by zero, no index out of range
+    (path-sensitive; calls contribute the callee's predicate). -/
+def Date.and_hms_safe (self : Int) (hour : Int) (minute : Int) (sec : Int) (usec : Int) : Prop :=
+  Tr.Time.try_from_hms_safe hour minute sec usec ∧
+  (match Tr.Time.try_from_hms hour minute sec usec with
+   | Except.error err => True
+   | Except.ok r1 => Tr.Timestamp.new_safe self r1)
 
 /-- `date.rs::Date::add_days` (date.rs:250), body sha1 05ae08d4404a -/
 def Date.add_days (self : Int) (days : Int) : Chk Int :=
@@ -675,6 +1234,14 @@ def Date.add_days (self : Int) (days : Int) : Chk Int :=
   | some d => Tr.Date.try_from_days d
   | none => Except.error Err.DateOutOfRange
 
+/-- No arithmetic node of `date.rs::Date::add_days` leaves its Rust integer type, no division by zero, no index out of range
+    (path-sensitive; calls contribute the callee's predicate). -/
+def Date.add_days_safe (self : Int) (days : Int) : Prop :=
+  let result : Option Int := checkedI32 (self + days)
+  match result with
+  | some d => Tr.Date.try_from_days_safe d
+  | none => True
+
 /-- `date.rs::Date::sub_days` (date.rs:302), body sha1 8f083bddcede -/
 def Date.sub_days (self : Int) (days : Int) : Chk Int :=
   -- date.rs:303: let result = self.days().checked_sub(days);
@@ -683,9 +1250,22 @@ def Date.sub_days (self : Int) (days : Int) : Chk Int :=
   | some d => Tr.Date.try_from_days d
   | none => Except.error Err.DateOutOfRange
 
+/-- No arithmetic node of `date.rs::Date::sub_days` leaves its Rust integer type, no division by zero, no index out of range
+    (path-sensitive; calls contribute the callee's predicate). -/
+def Date.sub_days_safe (self : Int) (days : Int) : Prop :=
+  let result : Option Int := checkedI32 (self - days)
+  match result with
+  | some d => Tr.Date.try_from_days_safe d
+  | none => True
+
 /-- `date.rs::Date::sub_date` (date.rs:296), body sha1 6400ee669c9e -/
 def Date.sub_date (self : Int) (date : Int) : Int :=
   self - date
+
+/-- No arithmetic node of `date.rs::Date::sub_date` leaves its Rust integer type, no division by zero, no index out of range
+    (path-sensitive; calls contribute the callee's predicate). -/
+def Date.sub_date_safe (self : Int) (date : Int) : Prop :=
+  fitsI32 (self - date)
 
 /-- `date.rs::Date::day_of_week` (date.rs:336), body sha1 fcef22488d54 -/
 def Date.day_of_week (self : Int) : Int :=
@@ -703,6 +1283,23 @@ def Date.day_of_week (self : Int) : Int :=
       date
   asU64 date + 1
 
+/-- No arithmetic node of `date.rs::Date::day_of_week` leaves its Rust integer type, no division by zero, no index out of range
+    (path-sensitive; calls contribute the callee's predicate). -/
+def Date.day_of_week_safe (self : Int) : Prop :=
+  fitsI32 (self + UNIX_EPOCH_DOW) ∧
+  fitsI32 (self + UNIX_EPOCH_DOW - 1) ∧
+  let date : Int := self + UNIX_EPOCH_DOW - 1
+  let date : Int := rrem date 7
+  (date < 0 → fitsI32 (date + 7)) ∧
+  let date : Int :=
+    if date < 0 then
+      -- date.rs:341: date += 7;
+      let date : Int := date + 7
+      date
+    else
+      date
+  fitsU64 (asU64 date + 1)
+
 /-- `date.rs::Date::last_day_of_month` (date.rs:439), body sha1 dbf884a9ec17 -/
 def Date.last_day_of_month (self : Int) : Int :=
   -- date.rs:440: let (year, month, day) = self.extract();
@@ -716,13 +1313,35 @@ def Date.last_day_of_month (self : Int) : Int :=
   let result : Int := self + asI32 result_day - asI32 day
   result
 
+/-- No arithmetic node of `date.rs::Date::last_day_of_month` leaves its Rust integer type, no division by zero, no index out of range
+    (path-sensitive; calls contribute the callee's predicate). -/
+def Date.last_day_of_month_safe (self : Int) : Prop :=
+  Tr.Date.extract_safe self ∧
+  let year_month_day : Int × Int × Int := Tr.Date.extract self
+  let year : Int := year_month_day.1
+  let month : Int := year_month_day.2.1
+  let day : Int := year_month_day.2.2
+  Tr.days_of_month_safe year month ∧
+  let result_day : Int := Tr.days_of_month year month
+  fitsI32 (self + asI32 result_day) ∧ fitsI32 (self + asI32 result_day - asI32 day)
+
 /-- `date.rs::PartialOrd<Timestamp> for Date::partial_cmp` (date.rs:733), body sha1 3d6897ee7ff8 -/
 def Date.partial_cmp_timestamp (self : Int) (other : Int) : Option Int :=
   some (cmpInt (Tr.Date.and_zero_time self) other)
 
+/-- No arithmetic node of `date.rs::PartialOrd<Timestamp> for Date::partial_cmp` leaves its Rust integer type, no division by zero, no index out of range
+    (path-sensitive; calls contribute the callee's predicate). -/
+def Date.partial_cmp_timestamp_safe (self : Int) (other : Int) : Prop :=
+  Tr.Date.and_zero_time_safe self
+
 /-- `date.rs::PartialEq<Timestamp> for Date::eq` (date.rs:726), body sha1 de5589ae20c4 -/
 def Date.eq_timestamp (self : Int) (other : Int) : Bool :=
   decide (Tr.Date.and_zero_time self = other)
+
+/-- No arithmetic node of `date.rs::PartialEq<Timestamp> for Date::eq` leaves its Rust integer type, no division by zero, no index out of range
+    (path-sensitive; calls contribute the callee's predicate). -/
+def Date.eq_timestamp_safe (self : Int) (other : Int) : Prop :=
+  Tr.Date.and_zero_time_safe self
 
 /-- `oracle.rs::OracleDate::new` (oracle.rs:29), body sha1 3879069e29cc -/
 def OracleDate.new (date : Int) (time : Int) : Int :=
@@ -731,13 +1350,31 @@ def OracleDate.new (date : Int) (time : Int) : Int :=
     if rrem time USECONDS_PER_SECOND ≠ 0 then rdiv time USECONDS_PER_SECOND * USECONDS_PER_SECOND else time
   Tr.Timestamp.new date time
 
+/-- No arithmetic node of `oracle.rs::OracleDate::new` leaves its Rust integer type, no division by zero, no index out of range
+    (path-sensitive; calls contribute the callee's predicate). -/
+def OracleDate.new_safe (date : Int) (time : Int) : Prop :=
+  (rrem time USECONDS_PER_SECOND ≠ 0 → fitsI64 (rdiv time USECONDS_PER_SECOND * USECONDS_PER_SECOND)) ∧
+  let time : Int :=
+    if rrem time USECONDS_PER_SECOND ≠ 0 then rdiv time USECONDS_PER_SECOND * USECONDS_PER_SECOND else time
+  Tr.Timestamp.new_safe date time
+
 /-- `oracle.rs::OracleDate::is_valid_date` (oracle.rs:83), body sha1 d2a018e4f20d -/
 def OracleDate.is_valid_date (usecs : Int) : Bool :=
   decide (Tr.is_valid_timestamp usecs = true ∧ rrem usecs USECONDS_PER_SECOND = 0)
 
+/-- No arithmetic node of `oracle.rs::OracleDate::is_valid_date` leaves its Rust integer type, no division by zero, no index out of range
+    (path-sensitive; calls contribute the callee's predicate). -/
+def OracleDate.is_valid_date_safe (usecs : Int) : Prop :=
+  Tr.is_valid_timestamp_safe usecs
+
 /-- `oracle.rs::OracleDate::try_from_usecs` (oracle.rs:74), body sha1 97a0fdb9e32f -/
 def OracleDate.try_from_usecs (usecs : Int) : Chk Int :=
   if Tr.OracleDate.is_valid_date usecs = true then Except.ok usecs else Except.error Err.DateOutOfRange
+
+/-- No arithmetic node of `oracle.rs::OracleDate::try_from_usecs` leaves its Rust integer type, no division by zero, no index out of range
+    (path-sensitive; calls contribute the callee's predicate). -/
+def OracleDate.try_from_usecs_safe (usecs : Int) : Prop :=
+  Tr.OracleDate.is_valid_date_safe usecs
 
 /-- `oracle.rs::From<Timestamp> for OracleDate::from` (oracle.rs:371), body sha1 4c99cc211bfc -/
 def OracleDate.from_timestamp (timestamp : Int) : Int :=
@@ -749,11 +1386,27 @@ def OracleDate.from_timestamp (timestamp : Int) : Int :=
   let result : Int := if usecs < 0 ∧ temp > usecs then temp - USECONDS_PER_SECOND else temp
   result
 
+/-- No arithmetic node of `oracle.rs::From<Timestamp> for OracleDate::from` leaves its Rust integer type, no division by zero, no index out of range
+    (path-sensitive; calls contribute the callee's predicate). -/
+def OracleDate.from_timestamp_safe (timestamp : Int) : Prop :=
+  let usecs : Int := timestamp
+  fitsI64 (rdiv usecs USECONDS_PER_SECOND * USECONDS_PER_SECOND) ∧
+  let temp : Int := rdiv usecs USECONDS_PER_SECOND * USECONDS_PER_SECOND
+  usecs < 0 ∧ temp > usecs → fitsI64 (temp - USECONDS_PER_SECOND)
+
 /-- `oracle.rs::OracleDate::add_interval_dt` (oracle.rs:103), body sha1 d1969c965f82 -/
 def OracleDate.add_interval_dt (self : Int) (interval : Int) : Chk Int :=
   match Tr.Timestamp.add_interval_dt self interval with
   | Except.error err => Except.error err
   | Except.ok r1 => Except.ok (Tr.OracleDate.from_timestamp r1)
+
+/-- No arithmetic node of `oracle.rs::OracleDate::add_interval_dt` leaves its Rust integer type, no division by zero, no index out of range
+    (path-sensitive; calls contribute the callee's predicate). -/
+def OracleDate.add_interval_dt_safe (self : Int) (interval : Int) : Prop :=
+  Tr.Timestamp.add_interval_dt_safe self interval ∧
+  (match Tr.Timestamp.add_interval_dt self interval with
+   | Except.error err => True
+   | Except.ok r1 => Tr.OracleDate.from_timestamp_safe r1)
 
 /-- `oracle.rs::OracleDate::add_interval_ym` (oracle.rs:109), body sha1 07e765ef9457 -/
 def OracleDate.add_interval_ym (self : Int) (interval : Int) : Chk Int :=
@@ -761,14 +1414,34 @@ def OracleDate.add_interval_ym (self : Int) (interval : Int) : Chk Int :=
   | Except.error err => Except.error err
   | Except.ok r1 => Except.ok (Tr.OracleDate.from_timestamp r1)
 
+/-- No arithmetic node of `oracle.rs::OracleDate::add_interval_ym` leaves its Rust integer type, no division by zero, no index out of range
+    (path-sensitive; calls contribute the callee's predicate). -/
+def OracleDate.add_interval_ym_safe (self : Int) (interval : Int) : Prop :=
+  Tr.Timestamp.add_interval_ym_safe self interval ∧
+  (match Tr.Timestamp.add_interval_ym self interval with
+   | Except.error err => True
+   | Except.ok r1 => Tr.OracleDate.from_timestamp_safe r1)
+
 /-- `oracle.rs::OracleDate::sub_interval_dt` (oracle.rs:147), body sha1 7f4f0a2870ec -/
 -- inlined helpers: interval.rs::Neg for IntervalDT::neg
 def OracleDate.sub_interval_dt (self : Int) (interval : Int) : Chk Int :=
   Tr.OracleDate.add_interval_dt self ((fun (self : Int) => Tr.IntervalDT.negate self) interval)
 
+/-- No arithmetic node of `oracle.rs::OracleDate::sub_interval_dt` leaves its Rust integer type, no division by zero, no index out of range
+    (path-sensitive; calls contribute the callee's predicate). -/
+def OracleDate.sub_interval_dt_safe (self : Int) (interval : Int) : Prop :=
+  (fun (self : Int) => Tr.IntervalDT.negate_safe self) interval ∧
+  Tr.OracleDate.add_interval_dt_safe self ((fun (self : Int) => Tr.IntervalDT.negate self) interval)
+
 /-- `oracle.rs::OracleDate::sub_interval_ym` (oracle.rs:159), body sha1 451b3f2358fc -/
 -- inlined helpers: interval.rs::Neg for IntervalYM::neg
 def OracleDate.sub_interval_ym (self : Int) (interval : Int) : Chk Int :=
   Tr.OracleDate.add_interval_ym self ((fun (self : Int) => Tr.IntervalYM.negate self) interval)
+
+/-- No arithmetic node of `oracle.rs::OracleDate::sub_interval_ym` leaves its Rust integer type, no division by zero, no index out of range
+    (path-sensitive; calls contribute the callee's predicate). -/
+def OracleDate.sub_interval_ym_safe (self : Int) (interval : Int) : Prop :=
+  (fun (self : Int) => Tr.IntervalYM.negate_safe self) interval ∧
+  Tr.OracleDate.add_interval_ym_safe self ((fun (self : Int) => Tr.IntervalYM.negate self) interval)
 
 end SqlDt.Tr
